@@ -171,7 +171,7 @@ func modelCalls(s string) []string {
 
 func runC11(ctx *Ctx) error {
 	r, res := ctx.Rng, ctx.Res
-	res.Rule = "(a) system-call correspondence: AddOut, ProcessInbound, SetUnread and SetSent are each executed by the real code in a child process under strace; the calls on files below the mailbox (open for writing, write, close, rename, unlink) must equal the model's call sequence. (b) crash points: for stores of messages of several sizes into mailboxes with existing messages (including an older copy under the same MID), every k in 0..4 and every j (quick: 24 prefix lengths incl. 0, 1, len-1, len; thorough: every byte) and both crash points of SetSent: the model's crash state is materialised in a temporary directory and the REAL recovery code runs on it (fresh DirHandler: Prepare, Inbox/Outbox/Sent listings, GetInboundAnswer, GetOutbound). Oracle: every folder loads without error, previously stored messages are byte-identical, an outbound message is in exactly one of outbox/sent, 'already received' only with a complete copy in the inbox. Non-trivial: crash inside the write or between write and rename; distinct by (operation, size, k, j)."
+	res.Rule = "(a) system-call correspondence: AddOut, ProcessInbound, SetUnread and SetSent are each executed by the real code in a child process under strace; the calls on files below the mailbox (open for writing, write, close, rename, unlink) must equal the model's call sequence. (b) crash points: for stores of messages of several sizes into mailboxes with existing messages (including an older copy under the same MID), every k in 0..4 and every j (quick: 24 prefix lengths incl. 0, 1, len-1, len; thorough: every byte) and both crash points of SetSent: the model's crash state is materialised in a temporary directory and the REAL recovery code runs on it (fresh DirHandler: Prepare, Inbox/Outbox/Sent listings, GetInboundAnswer, GetOutbound). Oracle: every folder loads without error, previously stored messages are byte-identical, an outbound message is in exactly one of outbox/sent, 'already received' only with a complete copy in the inbox (also after a store that failed at its first system call: MIDs of 250..5000 bytes, a symlink loop in the message's place). Non-trivial: crash inside the write or between write and rename; distinct by (operation, size, k, j)."
 	root, err := os.MkdirTemp("", "verif-c11-")
 	if err != nil {
 		return err
@@ -403,6 +403,45 @@ func runC11(ctx *Ctx) error {
 		}
 		if i == 7 {
 			res.Sample(cs)
+		}
+		os.RemoveAll(dir)
+	}
+	// (c) an inbound store that is interrupted before anything reaches the disk (the first
+	// system call fails: name too long for the file system, a dangling loop in its place):
+	// after the restart the mailbox must not claim to have the message
+	for i, mc := range []struct {
+		what string
+		mid  string
+		loop bool
+	}{
+		{"mid-12", "FAILSTORE012", false}, {"mid-250", strings.Repeat("M", 250), false}, {"mid-251", strings.Repeat("M", 251), false},
+		{"mid-252", strings.Repeat("M", 252), false}, {"mid-255", strings.Repeat("M", 255), false}, {"mid-300", strings.Repeat("M", 300), false},
+		{"mid-5000", strings.Repeat("M", 5000), false}, {"symlink-loop", "LOOPEDMSG001", true},
+	} {
+		dir := filepath.Join(root, fmt.Sprintf("fs%d", i))
+		h0 := mailbox.NewDirHandler(dir, false)
+		h0.Prepare()
+		if mc.loop {
+			os.Symlink(mc.mid+".b2f", filepath.Join(dir, "in", mc.mid+".b2f"))
+		}
+		cs := map[string]interface{}{"operation": "inbound store failing at its first system call", "case": mc.what, "mid_len": len(mc.mid)}
+		res.Eval("failstore:"+mc.what, true)
+		res.Count("store-fails-early")
+		func() {
+			defer func() { recover() }()
+			h0.ProcessInbound(c11Message(mc.mid, 100))
+		}()
+		h := mailbox.NewDirHandler(dir, false)
+		h.Prepare()
+		raw, rerr := os.ReadFile(filepath.Join(dir, "in", mc.mid+".b2f"))
+		complete := rerr == nil && len(raw) > 0
+		var ans fbb.ProposalAnswer
+		func() {
+			defer func() { recover() }()
+			ans = h.GetInboundAnswer(*fbb.NewProposal(mc.mid, "t", fbb.Wl2kProposal, []byte("x")))
+		}()
+		if ans == fbb.Reject && !complete {
+			res.Fail(Failure{Kind: "oracle", Site: "already-received-without-complete-copy", Case: cs, Detail: "the store failed, the inbox holds no copy, yet the proposal is answered 'already received'"})
 		}
 		os.RemoveAll(dir)
 	}
